@@ -6,7 +6,8 @@ SPEC = {
     "driver": "drv_c01c",
     "harness": "c01c",
     "theorems": ["C01_stream_any_chunking", "C01_stream_op_any_chunking", "C01_stream_write_layout",
-                 "C01_stream_op_write_layout", "C01_stream_in_place_any_chunking", "C01_stream_readFull_any_chunking"],
+                 "C01_stream_op_write_layout", "C01_stream_in_place_any_chunking", "C01_stream_readFull_any_chunking",
+                 "C01_stream_seek_spec", "C01_stream_seek_end_appends", "C01_stream_seek_in_place_any_chunking"],
     "trusted_base": ["hand-written model Hive/Model/Stream.lean of serializer/stream/{read,write,byte_buffer}.go, tied by differential execution (harness/c01c, harness/c02/sx)",
                      "io.ReadFull / binary.Read / bytes.Buffer semantics as written down in the model (readFullAux, BB.write)",
                      "Go toolchain, compiled Lean driver"],
